@@ -251,7 +251,7 @@ func (d *driver) stageFlights() {
 			})
 		}
 	}
-	// concurrent callers of one key while the leader's execution is held
+	// concurrent callers (of one key, and of two keys at the same time) while the leaders' executions are held
 	for _, mkObj := range []int{0, 1, 2} {
 		ns := []int{2, 5}
 		if d.tier == "thorough" {
@@ -259,24 +259,25 @@ func (d *driver) stageFlights() {
 		}
 		for _, n := range ns {
 			for _, ok := range []bool{true, false} {
-				o := d.flightObjectsAt(mkObj, round)
-				round++
-				execs, results := runConc(o, "k", n, ok)
-				var es, rs []string
-				for _, e := range execs {
-					es = append(es, e)
+				for _, keys := range [][]string{{"k"}, {"a", "b"}} {
+					if len(keys) > n {
+						continue
+					}
+					o := d.flightObjectsAt(mkObj, round)
+					round++
+					execs, results := runConc(o, keys, n, ok)
+					for _, k := range keys {
+						d.out.Add(gal.Case{
+							Term: fmt.Sprintf("(CFlightConc {| fc_obj := %s; fc_key := %s; fc_callers := %d; fc_execs := %s; fc_results := %s |})",
+								o.name, gal.Str(k), len(results[k]), gal.List(execs[k]), gal.List(results[k])),
+							Desc: map[string]any{"exp": "flight-conc", "object": o.name, "variant": mkObj, "callers": n, "keys": keys, "key": k, "fn_succeeds": ok,
+								"executions": len(execs[k]), "results": results[k]},
+							Class: fmt.Sprintf("flight-conc/%s", o.name),
+							Key:   fmt.Sprintf("fc/%d/%d/%v/%v/%s/%v", mkObj, n, ok, keys, k, results[k]),
+						})
+						d.count("flight_conc_executions", fmt.Sprintf("%s n=%d keys=%d -> %d", o.name, n, len(keys), len(execs[k])))
+					}
 				}
-				for _, r := range results {
-					rs = append(rs, r)
-				}
-				d.out.Add(gal.Case{
-					Term: fmt.Sprintf("(CFlightConc {| fc_obj := %s; fc_key := \"k\"; fc_callers := %d; fc_execs := %s; fc_results := %s |})",
-						o.name, n, gal.List(es), gal.List(rs)),
-					Desc:  map[string]any{"exp": "flight-conc", "object": o.name, "variant": mkObj, "callers": n, "fn_succeeds": ok, "executions": len(execs), "results": rs},
-					Class: fmt.Sprintf("flight-conc/%s", o.name),
-					Key:   fmt.Sprintf("fc/%d/%d/%v/%v", mkObj, n, ok, rs),
-				})
-				d.count("flight_conc_executions", fmt.Sprintf("%s n=%d -> %d", o.name, n, len(execs)))
 			}
 		}
 	}
@@ -302,46 +303,53 @@ func scriptMsg(err error) string {
 	return msg
 }
 
-// runConc: n callers of one key; the first execution of fn is held until every caller has been
-// started and given time to arrive; execution number i returns "v<i>" (or fails with "e<i>")
-func runConc(o flightObj, key string, n int, ok bool) (execs []string, results []string) {
+// runConc: n callers, caller c asks for keys[c mod len(keys)]; the first execution of fn for each key is held
+// until every caller has been started and given time to arrive; execution number i for a key returns
+// "v<i>-<key>" (or fails with "e<i>-<key>"). Returns, per key, what the executions returned and what the
+// callers of that key were handed.
+func runConc(o flightObj, keys []string, n int, ok bool) (execs map[string][]string, results map[string][]string) {
 	var mu sync.Mutex
-	nexec := 0
+	nexec := map[string]int{}
+	execs, results = map[string][]string{}, map[string][]string{}
 	release := make(chan struct{})
-	fn := func() (string, error) {
-		mu.Lock()
-		nexec++
-		i := nexec
-		mu.Unlock()
-		<-release
-		mu.Lock()
-		defer mu.Unlock()
-		if ok {
-			execs = append(execs, "(OOk "+gal.Str(fmt.Sprintf("v%d", i))+")")
-			return fmt.Sprintf("v%d", i), nil
+	mkfn := func(key string) func() (string, error) {
+		return func() (string, error) {
+			mu.Lock()
+			nexec[key]++
+			i := nexec[key]
+			mu.Unlock()
+			<-release
+			mu.Lock()
+			defer mu.Unlock()
+			if ok {
+				v := fmt.Sprintf("v%d-%s", i, key)
+				execs[key] = append(execs[key], "(OOk "+gal.Str(v)+")")
+				return v, nil
+			}
+			e := fmt.Sprintf("e%d-%s", i, key)
+			execs[key] = append(execs[key], "(OErr "+gal.Str(e)+")")
+			return "", fmt.Errorf("%s: %w", e, errScripted)
 		}
-		execs = append(execs, "(OErr "+gal.Str(fmt.Sprintf("e%d", i))+")")
-		return "", fmt.Errorf("e%d: %w", i, errScripted)
 	}
 	res := make([]string, n)
 	var wg sync.WaitGroup
 	for c := 0; c < n; c++ {
+		key := keys[c%len(keys)]
 		wg.Add(1)
 		go func(c int) {
 			defer wg.Done()
-			v, err := o.call(key, fn)
+			v, err := o.call(key, mkfn(key))
 			if err == nil {
 				res[c] = "(OOk " + gal.Str(v) + ")"
 				return
 			}
-			msg := scriptMsg(err)
-			res[c] = "(OErr " + gal.Str(msg) + ")"
+			res[c] = "(OErr " + gal.Str(scriptMsg(err)) + ")"
 		}(c)
-		if c == 0 {
-			// the leader first: wait until its execution has started
+		if c < len(keys) {
+			// the leaders first: wait until the execution for this key has started
 			for i := 0; i < 2000; i++ {
 				mu.Lock()
-				s := nexec
+				s := nexec[key]
 				mu.Unlock()
 				if s > 0 {
 					break
@@ -353,7 +361,11 @@ func runConc(o flightObj, key string, n int, ok bool) (execs []string, results [
 	time.Sleep(40 * time.Millisecond) // let the others reach the group
 	close(release)
 	wg.Wait()
-	return execs, res
+	for c := 0; c < n; c++ {
+		k := keys[c%len(keys)]
+		results[k] = append(results[k], res[c])
+	}
+	return execs, results
 }
 
 // ---- fetchOffline on real directories ---------------------------------------------------
@@ -389,6 +401,20 @@ func offlinePick(root, u string) (picked string, clen int64, body []byte, err er
 	return picked, resp.ContentLength, body, nil
 }
 
+// offlineDir: the directory the code under test keeps the cached revisions of URL u in (cachePathFromURL +
+// cacheDirFromFile of the source of this run: the layout is not assumed here)
+func offlineDir(root, u string) string {
+	uu, err := url.Parse(u)
+	if err != nil {
+		return ""
+	}
+	cf, err := apk.VerifCachePathFromURL(root, *uu)
+	if err != nil {
+		return ""
+	}
+	return apk.VerifCacheDirFromFile(cf)
+}
+
 func dentryTerm(name string, mtime int64, adv bool, file, rev string, whole bool) string {
 	return fmt.Sprintf("{| de_name := %s; de_mtime := %s; de_adv := %s; de_file := %s; de_rev := %s; de_whole := %s |}",
 		gal.Str(name), gal.N(uint64(mtime)), gal.Bool(adv), gal.Str(file), gal.Str(rev), gal.Bool(whole))
@@ -397,13 +423,7 @@ func dentryTerm(name string, mtime int64, adv bool, file, rev string, whole bool
 // emitOffline: list dir as os.ReadDir does, classify every entry with classify(bytes) and compare
 // the real pick for URL u with the model / validator
 func (d *driver) emitOffline(root, u, reqFile, class string, desc map[string]any, classify func(b []byte) (file, rev string, whole bool)) string {
-	uu, _ := url.Parse(u)
-	_ = uu
-	cf := filepath.Join(root, url.QueryEscape(strings.TrimSuffix(u, "/"+filepath.Base(filepath.Dir(uu.Path))+"/"+filepath.Base(uu.Path))), filepath.Base(filepath.Dir(uu.Path)))
-	dir := cf
-	if strings.HasSuffix(u, "APKINDEX.tar.gz") {
-		dir = filepath.Join(cf, "APKINDEX")
-	}
+	dir := offlineDir(root, u)
 	des, _ := os.ReadDir(dir)
 	// rank the modification times (nanoseconds do not fit the case format; only their order matters)
 	var times []int64
@@ -435,7 +455,8 @@ func (d *driver) emitOffline(root, u, reqFile, class string, desc map[string]any
 		if err == nil {
 			file, rev, whole = classify(b)
 		}
-		ents = append(ents, dentryTerm(de.Name(), rank[fi.ModTime().UnixNano()], fi.Mode()&os.ModeSymlink != 0, file, rev, whole))
+		// an advertised name: whatever is not a temporary name of os.CreateTemp(dir, "*.tmp")
+		ents = append(ents, dentryTerm(de.Name(), rank[fi.ModTime().UnixNano()], !strings.HasSuffix(de.Name(), ".tmp"), file, rev, whole))
 		names = append(names, fmt.Sprintf("%s@%d", de.Name(), rank[fi.ModTime().UnixNano()]))
 	}
 	picked, _, _, err := offlinePick(root, u)
@@ -531,7 +552,7 @@ func (d *driver) stageOfflineFixtures() {
 	for i, f := range corpus {
 		root := filepath.Join(d.w.root, fmt.Sprintf("offline-fix-%d", i))
 		u := "http://origin.invalid/repo/x86_64/APKINDEX.tar.gz"
-		dir := filepath.Join(root, url.QueryEscape("http://origin.invalid/repo"), "x86_64", "APKINDEX")
+		dir := offlineDir(root, u)
 		os.MkdirAll(dir, 0o755)
 		for _, e := range f.ents {
 			p := filepath.Join(dir, e.name)
@@ -554,10 +575,10 @@ func (d *driver) stageOfflineFixtures() {
 	// do not say which file they belong to
 	for i, order := range [][2]string{{"a.rsa.pub", "b.rsa.pub"}, {"b.rsa.pub", "a.rsa.pub"}} {
 		root := filepath.Join(d.w.root, fmt.Sprintf("offline-keys-fix-%d", i))
-		dir := filepath.Join(root, url.QueryEscape("http://origin.invalid/repo"), "keys")
-		os.MkdirAll(dir, 0o755)
 		content := map[string][]byte{"a.rsa.pub": []byte("key A"), "b.rsa.pub": []byte("key B")}
 		for j, f := range order {
+			dir := offlineDir(root, "http://origin.invalid/repo/keys/"+f)
+			os.MkdirAll(dir, 0o755)
 			t := fmt.Sprintf("%d.tmp", 100+j)
 			os.WriteFile(filepath.Join(dir, t), content[f], 0o644)
 			l := base32.StdEncoding.EncodeToString([]byte("etag-of-"+f)) + ".etag"
